@@ -35,7 +35,7 @@ m = {
                  "kind_free_text": "Coq development under coq/theories (Props/Cxx.v holds the property theorems) + coq/gen (link theorems between the models and Gallina text regenerated from /repo's source on every run by the fail-closed translators harness/translate_*.py) + Python correspondence harness under harness/"}],
     "checks": checks,
     "not_applicable": na,
-    "notes": "Genuine defects repaired in /repo by 'fix:' commits are listed in known_findings.json (status fixed); F6 (C17, interrupt while the worker pool starts) is the one recorded known finding. DESIGN.md section 2.1b lists the thirteen translator ties and their 34 link theorems, section 3 the trusted base, section 7 the 408 seeded changes and which checks catch them.",
+    "notes": "Genuine defects repaired in /repo by 'fix:' commits are listed in known_findings.json (status fixed); F6 (C17, interrupt while the worker pool starts) is the one recorded known finding. DESIGN.md section 2.1b lists the fourteen translator ties and their 36 link theorems, section 3 the trusted base, section 7 the 408 seeded changes and which checks catch them.",
 }
 json.dump(m, open(os.path.join(R, "MANIFEST.json"), "w"), indent=1)
 print("claimed:", [c["property_id"] for c in checks])
